@@ -200,11 +200,14 @@ class ProgGen(object):
         if nargs and r.random() < 0.45:
             opt = self.marker()
             self.features.add('optional-default')
+            if r.random() < 0.2:
+                opt = ''
+                self.features.add('optional-default-empty')
         if cands and r.random() < 0.3:
             old = r.choice(cands)
             name, rank = old.name, old.rank
             nargs = old.nargs
-            opt = self.marker() if old.opt is not None else None
+            opt = (self.marker() if r.random() < 0.8 else '') if old.opt is not None else None
             renew = True
             self.features.add('renewcommand')
         else:
